@@ -209,6 +209,17 @@ Theorem C01_first_is_linq :
 Proof. exact first_col_linq. Qed.
 Print Assumptions C01_first_is_linq.
 
+(* ... also when the body has conditional expressions (ColFirstB: their variables are declared and assigned for every passing
+   element, before the `if (is_first)`; the value is captured on the first) *)
+Theorem C01_first_with_conditionals_is_linq :
+  forall (ev : event) (cr : collref) (ps : guard) (body : bexp) (line : string) (f : value -> bool) (g : value -> value) (l : list value),
+  assoc_ss (c_ctype cr, c_bank cr) (ev_colls ev) = Some (VVec l) ->
+  passes_total ev ps l f -> (forall v, In v l -> f v = true -> db ev v body = ROk (g v)) ->
+  dcol ev (ColFirstB cr ps body line) =
+  match filter f l with [] => RFault FThrow | v :: _ => ROk (conv (btype body) (g v)) end.
+Proof. exact firstb_col_linq. Qed.
+Print Assumptions C01_first_with_conditionals_is_linq.
+
 Definition r2 : row :=
   [("lead", ColFirst jets (GOne {| p_neg := false; p_op := ">"; p_l := PMeth "pt"; p_r := PInt 30 |}) (PDiv (PMeth "pt") (PInt 2)) "throw std::runtime_error(""First() called on an empty sequence"");");
    ("n", ColScalar (ECount {| k_coll := jets; k_guard := GNone; k_agg := ACount |}))].
